@@ -176,6 +176,13 @@ def run_pair(mon, base, idx, old, new, sh, locked=False):
         if locked:
             vp.chown_tree(d)
         for step, entries in (("old", old), ("new", new)):
+            if step == "new" and not locked and idx % 5 == 2:
+                # between the two writes one that is refused half-way (a variable name that cannot be a file name) - the caller handles the error and
+                # writes the new env: what the refused write left behind (if anything) is gone after that like everything else written earlier
+                bad = list(old[: len(old) // 2]) + [("build", "override", b"BAD/NAME", b"x"), ("launch", "append", b"ALSO/BAD", b"y"), ("process:web", "default", b"P/Q", b"z")]
+                rep0 = mon.call({"op": "write", "dir": hx(d), "entries": enc_entries(bad)})
+                sh.count("refused_writes_in_between", 1 if "err" in rep0 else 0)
+                case["refused_write_in_between"] = True
             if locked and step == "new":
                 for root in ENV_ROOTS:
                     for dp, _, _ in os.walk(os.path.join(d, root)):
